@@ -406,11 +406,13 @@ var allTypes = []operation.Type{operation.TypeCreate, operation.TypeUpdate, oper
 
 // Harness_C01_Step: every operation type x failure class x pre-state, anchoring tuple symbolic.
 func Harness_C01_Step() {
+	keyKind = 0
 	applierStep(allTypes, []int{tNone, tUnparsable, tWrongSigner, tDeltaSubstituted, tDeltaInvalid, tInapplicable, tSuffixMismatch})
 }
 
 // Harness_C02_Tamper: every tampering class of a signed operation.
 func Harness_C02_Tamper() {
+	keyKind = 0
 	applierStep([]operation.Type{operation.TypeUpdate, operation.TypeRecover, operation.TypeDeactivate},
 		[]int{tNone, tWrongSigner, tPayloadChanged, tRevealMismatch, tDeltaSubstituted, tExtraHeader, tAlgNotAllowed, tTruncated, tSuffixMismatch, tSigPadded, tSigTruncated, tSigBitFlip})
 }
@@ -418,11 +420,13 @@ func Harness_C02_Tamper() {
 // Harness_C09_ApplyWindow: out-of-window updates and recovers still advance their commitments but leave the
 // document unchanged (empty for recover); out-of-window deactivates are refused - for every (from, until, time).
 func Harness_C09_ApplyWindow() {
+	keyKind = 0
 	applierStep([]operation.Type{operation.TypeUpdate, operation.TypeRecover, operation.TypeDeactivate}, []int{tNone})
 }
 
 // Harness_C12_ApplierInputs: the previous state (at any depth), the anchored operation and the patch values are
 // never written, whether the operation is applied, degraded or refused; a refused operation yields no state.
 func Harness_C12_ApplierInputs() {
+	keyKind = 0
 	applierStep(allTypes, []int{tNone, tUnparsable, tWrongSigner, tDeltaSubstituted, tInapplicable})
 }
